@@ -382,6 +382,13 @@ func c18Run(k c18Case, st *c18Stats) (int, string) {
 				if st != nil {
 					st.restored = true
 				}
+			case "ResetPosition":
+				rd.ResetPosition()
+				m.line, m.pos = init.ml, init.mp
+				if st != nil {
+					st.restored = true
+				}
+				desc = checkPos("ResetPosition")
 			case "Save":
 				l, p := rd.Position()
 				slot = &saved{l, p, m.line, m.pos}
@@ -667,7 +674,7 @@ func runC18(c *core.Ctx) {
 	// 1. exhaustive
 	srcLen, seqLen := c.N(4, 5), c.N(3, 4)
 	ops := []c18Op{{Name: "PeekLine"}, {Name: "Peek"}, {Name: "Advance1"}, {Name: "Advance2"}, {Name: "AdvanceRest"}, {Name: "AdvanceLine"},
-		{Name: "Save"}, {Name: "Restore"}, {Name: "LineOffset"}, {Name: "FindClosure", Arg: 4}, {Name: "FindClosureAdv", Arg: 4}, {Name: "TabPad", Arg: 1}}
+		{Name: "Save"}, {Name: "Restore"}, {Name: "LineOffset"}, {Name: "FindClosure", Arg: 4}, {Name: "FindClosureAdv", Arg: 4}, {Name: "TabPad", Arg: 1}, {Name: "ResetPosition"}}
 	nsrc := wl.ShortCount(len(c18Alpha), srcLen)
 	nseq := wl.ShortCount(len(ops), seqLen)
 	seqs := make([][]c18Op, 0, nseq)
@@ -706,7 +713,7 @@ func runC18(c *core.Ctx) {
 	// 2. random
 	r := c.Rng
 	nr := c.PerShard(c.N(400000, 60000000))
-	names := []string{"PeekLine", "Peek", "Advance", "Advance", "Advance1", "AdvanceRest", "AdvanceLine", "Save", "Restore", "Restore", "LineOffset", "FindClosure", "FindClosureAdv", "TabPad", "Value"}
+	names := []string{"PeekLine", "Peek", "Advance", "Advance", "Advance1", "AdvanceRest", "AdvanceLine", "Save", "Restore", "Restore", "LineOffset", "FindClosure", "FindClosureAdv", "TabPad", "Value", "ResetPosition"}
 	alpha := append(append([]string{}, c18Alpha...), "ab", "\n", "  ", "[x]", "(", ")", "``", "\\]", "\r\n", "\t\t")
 	for i := 0; i < nr; i++ {
 		var sb []byte
@@ -733,7 +740,7 @@ func runC18(c *core.Ctx) {
 	// 3. long sources: the number of lines at every boundary size (a reader that caches per-line data in a bounded table, or
 	// bounds a look-ahead, changes behaviour beyond some line count), several saved positions, jumps far back and forth
 	longNames := []string{"PeekLine", "Peek", "Advance", "AdvanceRest", "AdvanceLine", "AdvanceLines", "AdvanceLines", "SaveK", "SaveK", "RestoreK", "RestoreK", "RestoreK",
-		"LineOffset", "LineOffset", "FindClosure", "FindClosure", "FindClosureAdv", "TabPad"}
+		"LineOffset", "LineOffset", "FindClosure", "FindClosure", "FindClosureAdv", "TabPad", "ResetPosition"}
 	lk := 0
 	for _, nl := range wl.BoundarySizes {
 		if nl < 2 || nl > 1100 {
